@@ -52,6 +52,10 @@ def gen(ctx):
         L = rng.randint(m + 2, 14)
         gap = rng.choice([1, 1, 2])
         yield dict(kind="ap", u=[base + gap * rng.randint(0, 3) for _ in range(L)], m=m, r=rng.choice([0, 0, 1]), digits=0)
+    for (L, m) in ([(1100, 3), (2100, 1)] if ctx.tier == "quick" else [(1100, 3), (1500, 2), (2100, 1), (2600, 1), (1300, 4)]):
+        # a tail of equal states after a varied head: the match counts of early and late windows differ a lot
+        head = [rng.randrange(5) for _ in range(L - L // 8)]
+        yield dict(kind="ap", u=head + [0] * (L // 8), m=m, r=rng.choice([0, 1]), digits=0, big=1, long=1)
     for L in ([130, 300] if ctx.tier == "quick" else [127, 128, 129, 130, 257, 300, 600]):
         m = rng.choice([1, 2, 3])
         yield dict(kind="ap", u=[rng.randint(0, 3) for _ in range(L)], m=m, r=rng.choice([0, 1]), digits=1, long=1)
@@ -88,8 +92,26 @@ def call(c, form):
     return float(cpl.apen(seq, m=c["m"], r=c["r"]))
 
 
+def ref_apen_big(u, m, r):
+    """The same definition with the match counts obtained by NumPy broadcasting in row chunks (exact integers)."""
+    a = np.array(u, dtype=np.int64)
+    N = len(u)
+
+    def phi(mm):
+        n = N - mm + 1
+        w = np.stack([a[i:i + n] for i in range(mm)], axis=1)          # n windows of length mm
+        cnt = []
+        for s0 in range(0, n, 256):
+            d = np.abs(w[s0:s0 + 256, None, :] - w[None, :, :]).max(axis=2)
+            cnt += (d <= r).sum(axis=1).tolist()
+        return sum(math.log(c / float(n)) for c in cnt) / float(n)
+    return abs(phi(m + 1) - phi(m))
+
+
 def impl(c):
     import cellpylib as cpl
+    if c.get("big"):
+        return "ok big"
     if c["kind"] == "bad":
         seq = {"tuple": (0, 1, 0), "int": 5, "none": None, "range": range(4)}[c["form"]]
         try:
@@ -114,6 +136,13 @@ def oracle(c):
     if c["kind"] == "bad":
         a = impl(c)
         return None if a == "err TypeError" else "unsupported sequence type %s: %s instead of TypeError" % (c["form"], a)
+    if c.get("big"):
+        try:
+            v = call(c, "array" if len(c["u"]) % 2 else "list")
+        except Exception as e:
+            return "raised %s" % type(e).__name__
+        want = ref_apen_big(c["u"], c["m"], c["r"])
+        return None if fl.close(v, want) else "apen = %r, |phi(m+1) - phi(m)| = %r (N=%d, m=%d)" % (v, want, len(c["u"]), c["m"])
     try:
         vl = call(c, "list")
         va = call(c, "array")
